@@ -204,12 +204,15 @@ def gen_part(pid, tier, rep, d):
     # deeper sharing patterns over the reduced alphabet (3 leaves, 3 containers, nesting depth 3)
     behr = gen_streams(d, rep, [CLASSES[2], CLASSES[5]] if quick else CLASSES, 5 if quick else 6, 3, 2, "r")
     seen = set((b["mv"], b["py3"], bytes(bytearray(b["buf"]))) for b in beh)
-    for extra_ in (beh4, behr):
+    deep = []          # the reduced-alphabet behaviours (thorough: about 300 000 per FLAG_REF class)
+    for extra_, bucket in ((beh4, None), (behr, deep)):
         for b in extra_:
             k_ = (b["mv"], b["py3"], bytes(bytearray(b["buf"])))
             if k_ not in seen:
                 seen.add(k_)
                 beh.append(b)
+                if bucket is not None:
+                    bucket.append(b)
     fired = rep.extra.get("actions_fired", {})
     for act in ("EmitLeaf", "EmitInterned2", "EmitStrRef", "EmitRef", "OpenCont", "CloseDict", "Finish"):
         if not fired.get(act):
@@ -222,7 +225,15 @@ def gen_part(pid, tier, rep, d):
     rep.states += stats["states"]
     rep.transitions += stats["transitions"]
     rep.extra["round_trip"] = {"writer_behaviours_read_back_by_reference_reader": len(bare)}
-    wrapped = wrapped_records(beh, QUICK_REP if quick else REP, rich=(pid == "C01"))
+    if quick:
+        wrapped = wrapped_records(beh, QUICK_REP, rich=(pid == "C01"))
+    else:
+        # thorough: every representative magic of a class for the full-alphabet behaviours; the deep sharing patterns (20 times as many)
+        # under one magic per class -- two million wrapped streams do not fit in memory, and the layouts are exercised by the former
+        deep_ids = set(id(b) for b in deep)
+        one = dict((k_, v_[:1]) for k_, v_ in QUICK_REP.items())
+        wrapped = wrapped_records([b for b in beh if id(b) not in deep_ids], REP, rich=(pid == "C01"))
+        wrapped += wrapped_records(deep, one, rich=(pid == "C01"))
     if not quick:
         # every magic xdis accepts, instantiated with the short streams of its class (a layout or format gate that is off
         # for one magic only -- an alpha, a PyPy variant -- shows here)
